@@ -33,7 +33,7 @@ ASSUMPTIONS = ['tasks are atomic (each writes its own window of the shared buffe
                'worker counts and how far the workers have got at each pool API call',
                'under an injected read fault the call may raise any exception or return exactly the fault-free data',
                'a single-row save loads back as a plain array (documented behaviour of ra.load)']
-REACH_EXPECTED = ['lazy_workers', 'eager_workers', 'worker_switch', 'multi_chunk_dispatch', 'frame_entries', 'per_file_args',
+REACH_EXPECTED = ['rows_longer_than_a_chunk', 'lazy_workers', 'eager_workers', 'worker_switch', 'multi_chunk_dispatch', 'frame_entries', 'per_file_args',
                   'lengths_hint', 'generator_input', 'read_fault_run', 'rows_cross_padding_10', 'rows_cross_padding_100',
                   'strided_load', 'key_subset_load', 'rect_array_roundtrip', 'concatenate_trjs_run', 'mixed_topologies', 'striped_loader_run']
 FORMATS = ('xtc', 'h5', 'nc')      # not trr: mdtraj's TRR reader corrupts the heap with atom_indices
@@ -239,6 +239,15 @@ def fam_ra_roundtrip(ctx):
     L0 = t.irange(1, 7)
     lens = [L0 if equal else t.irange(1, 7) for _ in range(n_rows)]
     rect = t.flag(1, 6)
+    if t.flag(1, 6):
+        # rows as long as real trajectories: longer than one storage chunk of the file format
+        n_rows = t.irange(1, 4)
+        dt = t.choice(('int64', 'float64', 'int64', 'float64', 'int32', 'float32'))
+        lens = [L0 if equal else t.irange(1, 7) for _ in range(n_rows)]
+        for _ in range(t.irange(1, 2)):
+            lens[t.draw(n_rows)] = t.choice((8191, 8192, 8193, 10000, 16385, 20001) if dim == 0 else (2730, 2731, 3000, 5461, 6000))
+        rect = False
+        ctx.hit('rows_longer_than_a_chunk')
     rows = []
     for i, Ln in enumerate(lens):
         shp = (Ln,) if dim == 0 else (Ln, dim)
@@ -270,8 +279,9 @@ def fam_ra_roundtrip(ctx):
     full = ctx.sut(ra.load, fn)
     check_rows(full, rows, dt, 'full load')
     # strided load == slicing the full load
-    if t.flag():
-        s = t.irange(2, 5)
+    long_rows = max(lens) > 1000
+    if t.flag() or long_rows:
+        s = t.choice((3, 5, 7, 2, 4)) if long_rows else t.irange(2, 5)
         got = ctx.sut(ra.load, fn, stride=s)
         check_rows(got, [r[::s] for r in rows], dt, 'load(stride=%d)' % s)
         ctx.hit('strided_load')
